@@ -28,7 +28,7 @@ MANIFEST = {
                  "scheduler (TSan-instrumented build), plus exhaustive per-thread frame-history enumeration",
     "text": "(a) 27 per-frame analysis functions x every ordered selection with repetition of 1..3 of 4 distinct frames (84 "
             "sequences) on one thread, plus the 20-frame trajectory forwards, reversed and rotated: each frame's result "
-            "bit-identical to the frame alone; the cell changes shape (rectangular / hexagonal) and height from frame to frame and is short enough for pairs to wrap in the ab-plane. (b) sasa(), "
+            "bit-identical to the frame alone, also after an earlier call of the same function with a larger request (static tables, caches) and, for a 1100-frame trajectory, identical to the evaluation in 137-frame chunks (block boundaries); the cell changes shape (rectangular / hexagonal) and height from frame to frame and is short enough for pairs to wrap in the ab-plane. (b) sasa(), "
             "_compute_neighborlist(), inplace_center_and_trace_atom_major() built from the tree with -fsanitize=thread "
             "instrumentation and run on ucontext green threads: all schedules with <= 2 (thorough 3) preemptions at "
             "accesses to granules touched by >= 2 threads with a write, all free choices at blocking points, T in {2,3}, "
@@ -119,6 +119,33 @@ def functions(ref):
     return F
 
 
+def precalls(ref):
+    """name -> a call of the same mdtraj function with a LARGER request than functions() makes."""
+    import mdtraj as md
+    top = ref.topology
+    allp = np.array(list(itertools.combinations(range(0, top.n_atoms, 7), 2)))
+    ca = top.select("name CA")
+    P = {}
+    for opt in (True, False):
+        for per_ in (True, False):
+            P["distances(opt=%s,periodic=%s)" % (opt, per_)] = lambda t, o=opt, p=per_: md.compute_distances(t, allp, periodic=p, opt=o)
+    P["displacements"] = lambda t: md.compute_displacements(t, allp)
+    P["angles"] = lambda t: md.compute_angles(t, np.array([ca[i:i + 3] for i in range(len(ca) - 2)]))
+    P["dihedrals"] = lambda t: md.compute_dihedrals(t, np.array([ca[i:i + 4] for i in range(len(ca) - 3)]))
+    P["shrake_rupley(atom)"] = lambda t: md.shrake_rupley(t, n_sphere_points=480)
+    P["shrake_rupley(residue)"] = lambda t: md.shrake_rupley(t, n_sphere_points=480, mode="residue")
+    P["neighbors"] = lambda t: md.compute_neighbors(t, 1.2, ca)
+    P["neighborlist"] = lambda t: md.compute_neighborlist(t, 1.0, frame=0)
+    P["contacts"] = lambda t: md.compute_contacts(t, "all")
+    P["drid"] = lambda t: md.compute_drid(t)
+    P["dssp"] = lambda t: md.compute_dssp(t, simplified=True)
+    P["baker_hubbard(per frame)"] = lambda t: md.baker_hubbard(t, freq=0.0, exclude_water=False)
+    P["wernet_nilsson"] = lambda t: md.wernet_nilsson(t, exclude_water=False)
+    P["rmsd(atom_indices)"] = lambda t: md.rmsd(t, t, 0)
+    P["superpose(atom_indices)"] = lambda t: md.Trajectory(t.xyz.copy(), t.topology).superpose(t, 0)
+    return P
+
+
 def history_job(args):
     name, repo = args
     base = _frames(repo)
@@ -135,6 +162,24 @@ def history_job(args):
                          {"layer": "a", "fn": name, "seq": [k]}))
     n = 0
     nontrivial = 0
+    # (a0) state left behind by an EARLIER CALL with other options (static tables, module-level caches sized by a previous
+    # request): the same function is first called with a larger request (more sphere points, more pairs, a larger
+    # cutoff, more atoms ...), then every frame is evaluated again and must give the bits it gave in a fresh state
+    pre = precalls(base).get(name)
+    if pre is not None:
+        try:
+            pre(base)
+        except Exception:  # noqa  (the larger request is only a means)
+            pre = None
+    if pre is not None:
+        n += 1
+        bad = [k for k in range(NF) if _b(fn(base[k])[0]) != alone[k]]
+        if bad:
+            viol.append(("history|%s|result-depends-on-an-earlier-call-with-other-options" % name,
+                         "%s on frame %d differs after an earlier call of the same function with a larger request" % (name, bad[0]),
+                         {"layer": "a", "fn": name, "seq": "precall"}))
+        else:
+            nontrivial += 1
     for L in (1, 2, 3):
         for seq in itertools.product(range(NF), repeat=L):
             n += 1
@@ -166,8 +211,47 @@ def history_job(args):
                          % (name, order[bad[0]], label), {"layer": "a", "fn": name, "seq": label}))
         else:
             nontrivial += 1
+    # (a3) block boundaries: 1100 frames (a 9-residue fragment of the 20 models, tiled with a small drift, cell changing
+    # shape every frame) evaluated in ONE call versus in chunks of 137 frames: code that processes frames in blocks
+    # (1024, 512, 256 ...) and mis-advances a pointer at a block boundary gives other numbers for the late frames
+    if name in LONG_FUNCTIONS:
+        small = _long_traj(repo, 1100)
+        fn_s = functions(small[:4])[name] if name not in ("rmsd(parallel)", "rmsd(serial)", "rmsd(atom_indices)", "superpose",
+                                                         "superpose(atom_indices)", "lprmsd") else None
+        if fn_s is not None:
+            n += 1
+            whole = fn_s(small)
+            parts = []
+            for lo in range(0, small.n_frames, 137):
+                parts += fn_s(small[lo:lo + 137])
+            bad = [k for k in range(small.n_frames) if len(whole) != small.n_frames or _b(whole[k]) != _b(parts[k])]
+            if bad:
+                viol.append(("history|%s|frame-depends-on-its-position-in-a-long-trajectory" % name,
+                             "%s: frame %d of a %d-frame trajectory differs from the same frame evaluated in a 137-frame chunk "
+                             "(%d frames differ, first at %d)" % (name, bad[0], small.n_frames, len(bad), bad[0]),
+                             {"layer": "a", "fn": name, "seq": "1100-frames-vs-chunks"}))
+            else:
+                nontrivial += 1
     distinct_alone = len(set(alone.values()))
     return viol, n, nontrivial, distinct_alone
+
+
+LONG_FUNCTIONS = ("distances(opt=True,periodic=True)", "distances(opt=False,periodic=True)", "distances(opt=True,periodic=False)",
+                  "displacements", "angles", "angles(periodic=False)", "dihedrals", "phi", "center_coordinates",
+                  "shrake_rupley(atom)", "neighbors", "contacts", "rg", "drid", "gyration_tensor", "center_of_mass",
+                  "kabsch_sander", "dssp", "rmsf-free: inertia_tensor")
+
+
+def _long_traj(repo, n):
+    import mdtraj as md
+    t = md.load(os.path.join(repo, "tests/data/2EQQ.pdb"))
+    t = t.atom_slice(t.topology.select("resid 0 to 19"))
+    k = np.arange(n)
+    xyz = t.xyz[k % t.n_frames] + (0.0005 * k)[:, None, None].astype(np.float32)
+    L = np.column_stack([np.full(n, 2.9), np.full(n, 2.9), 2.6 + 0.001 * k])
+    A = np.tile(np.array([80.0, 95.0, 110.0]), (n, 1))
+    A[0::3] = 90.0
+    return md.Trajectory(xyz.astype(np.float32), t.topology, unitcell_lengths=L, unitcell_angles=A)
 
 
 # ------------------------------------------------------------------------------------------------ layer (b)
